@@ -71,6 +71,15 @@ func (ft *FT) monitorCtx(m *Monitor, base ssa.Value, st *State) *SpecCtx {
 
 // lockAcquire: havoc the guarded state of the object and assume the monitor invariant.
 func (ft *FT) lockAcquire(st *State, guard Term, lockVal ssa.Value, pos token.Pos) {
+	// acquiring a lock is an interference point: another goroutine may have closed any channel that existed when this
+	// function was entered (closing is monotone: a closed channel stays closed); channels this function made itself are
+	// taken not to be shared yet, like every other object it allocates
+	if hi := ft.heaps["CLOSED"]; hi != nil {
+		old := ft.get(st, "CLOSED")
+		nv := ft.freshVersion(st, "CLOSED")
+		entryNext := ft.get(ft.entry, "$next")
+		ft.assume("true", forall([][2]string{{"c", "Int"}}, "(! "+and(implies(app("select", old, "c"), app("select", nv, "c")), implies(app(">=", "c", entryNext), eq(app("select", nv, "c"), app("select", old, "c"))))+" :pattern ((select "+nv+" c)))"))
+	}
 	m, base := ft.monitorFor(lockVal)
 	if m == nil {
 		return
